@@ -208,11 +208,21 @@ def check(repo: Repo, run: Run) -> None:
         s = ast.unparse(fn)
         ok = all(nd in s for nd in needles)
         if fname == "macro_filter":
-            # the element (not the predicate's value) is kept
-            app = [n for n in ast.walk(fn) if isinstance(n, ast.Call) and isinstance(n.func, ast.Attribute) and n.func.attr == "append"]
-            loopvar = [ast.unparse(n.target) for n in ast.walk(fn) if isinstance(n, ast.For)]
-            ok = ok and bool(app) and bool(loopvar) and loopvar[0] in ast.unparse(app[0].args[0])
-        run.ob("C09.K6", fname, ok, f"{fname} has the shape its definition needs ({'; '.join(needles)})", ev.loc(fn))
+            # the element (not the predicate's value) is kept: what is appended / yielded must be the loop variable
+            app = [n for n in ast.walk(fn) if isinstance(n, ast.Call) and isinstance(n.func, ast.Attribute) and n.func.attr == "append" and n.args]
+            loops = [n for n in ast.walk(fn) if isinstance(n, ast.For)]
+            loopvar = [ast.unparse(n.target) for n in loops]
+            if app and loopvar:
+                kept = strip_cast(app[0].args[0])
+                names = {x.id for x in ast.walk(kept) if isinstance(x, ast.Name)}
+                if loopvar[0] not in names:
+                    run.ob("C09.K6", fname, False, f"{fname} keeps `{ast.unparse(kept)[:50]}`, not the element `{loopvar[0]}`: filter must return the order-preserving subsequence of the elements", ev.loc(app[0]))
+                    continue
+                guarded = any(isinstance(i, ast.If) and (any(app[0] in list(ast.walk(b)) for b in i.body) or any(isinstance(b, ast.Continue) for b in i.body)) for l in loops for i in ast.walk(l))
+                if guarded:
+                    run.ob("C09.K6", fname, True, f"{fname} appends the element itself under a test of the predicate's value", ev.loc(fn))
+                    continue
+        run.shape("C09.K6", fname, ok, f"{fname} has the shape its definition needs ({'; '.join(needles)})", ev.loc(fn))
     for fname in ("macro_map", "macro_filter", "macro_exists_one", "macro_exists", "macro_all"):
         fn = ev.func_n(fname)
         s = ast.unparse(fn)
